@@ -4,5 +4,6 @@ EXTENDS TimerPool, TLC
 \* state constraint of the three-timer configurations: everything happens while the loop runs (the life cycle -- operations before
 \* the loop starts, after it has stopped, destruction -- is explored by the two-timer configurations)
 AtPast == {-1, 0, 1}      \* doAt delays including a time point in the past (cfg files cannot write negative numbers)
+AtNeg == {-1, 1}
 RunOnly == (lp = "pre" => tm = <<>> /\ now = 0) /\ lp # "post" /\ pool = "alive"
 =============================================================================
